@@ -270,8 +270,21 @@ class Delegations:
         if json_str is None or len(json_str) == 0 or json_str == ABCPropertyGraphConstants.NEO4j_NONE:
             return None
         ds = Delegations(atype=atype)
-        json_dict = json.loads(json_str)
+
+        def no_duplicate_ids(pairs):
+            # a JSON object silently keeps the last of two entries with the same key
+            keys = [k for k, _ in pairs]
+            if len(keys) != len(set(keys)):
+                raise DelegationException(msg='Duplicate keys when parsing delegation from JSON')
+            return dict(pairs)
+
+        json_dict = json.loads(json_str, object_pairs_hook=no_duplicate_ids)
+        other_field = ABCPropertyGraphConstants.FIELD_LABELS if atype == DelegationType.CAPACITY \
+            else ABCPropertyGraphConstants.FIELD_CAPACITIES
         for k, v in json_dict.items():
+            if other_field in v.keys():
+                raise DelegationException(msg=f'Delegation {k} of type {atype} carries {other_field} when parsing '
+                                              f'delegation from JSON')
             if ABCPropertyGraphConstants.FIELD_POOL_ID in v.keys():
                 # single element pool or pool definition
                 if v[ABCPropertyGraphConstants.FIELD_POOL_ID] == ABCPropertyGraphConstants.SINGLE_POOL_NAME:
@@ -291,6 +304,10 @@ class Delegations:
                 format = DelegationFormat.PoolReference
                 pool_id = v[ABCPropertyGraphConstants.FIELD_POOL]
                 caporlab = None
+                if ABCPropertyGraphConstants.FIELD_LABELS in v.keys() or \
+                        ABCPropertyGraphConstants.FIELD_CAPACITIES in v.keys():
+                    raise DelegationException(msg=f'Pool reference {k} cannot have details when parsing '
+                                                  f'delegation from JSON')
             else:
                 raise DelegationException(msg='Invalid dictionary format when parsing delegation from JSON')
             d = Delegation(atype=atype, delegation_id=k, aformat=format, pool_id=pool_id)
